@@ -21,14 +21,34 @@ abstract model of rounds 1-f); after every read: what the wrapper answered.
 Property oracle (independent of Lean): snapshot at transaction begin / at commit; reads through the wrapper = the underlying
 store's content; pass-through calls and binds change no quad; bindings are those a plain dict pair would hold.
 """
+import os
+import sys
 import warnings
 
 import core  # noqa: F401
 from rdflib import BNode, ConjunctiveGraph, Dataset, Graph, Literal, URIRef
+from rdflib.collection import Collection
 from rdflib.plugins.stores.auditable import AuditableStore
 from rdflib.plugins.stores.memory import Memory, SimpleMemory
 
 warnings.filterwarnings("ignore", category=DeprecationWarning)
+
+# Round h: every Graph object rdflib creates while an operation runs is recorded (who created it, on which store).
+# Recording only - the constructor runs unchanged.
+_TRACE = None
+_graph_init = Graph.__init__
+
+
+def _traced_init(self, *a, **k):
+    _graph_init(self, *a, **k)
+    if _TRACE is not None:
+        f = sys._getframe(1)
+        while f is not None and f.f_code.co_name == "__init__" and f.f_code.co_filename.endswith("graph.py"):
+            f = f.f_back        # ConjunctiveGraph / Dataset / QuotedGraph constructors
+        _TRACE.append((self, os.path.basename(f.f_code.co_filename) if f else "?", f.f_code.co_name if f else "?"))
+
+
+Graph.__init__ = _traced_init
 
 ID = "C18"
 LEAN_TARGETS = ["RV.C18.Props", "RV.C18.Audit"]
@@ -278,6 +298,8 @@ def _fmt_bind(ns, pf):
 
 
 def run_impl(case):
+    global _TRACE
+    created = {}
     cfg = case["cfg"]
     gn = _ids(cfg)
     gn_rev = {v: k for k, v in gn.items()}
@@ -395,19 +417,41 @@ def run_impl(case):
                     viol.append(f"read: op {k} contexts({(s, p, o)}) through the wrapper answered {cs}, the store holds it in {want}")
                 obs.append(",".join(map(str, cs)))
             elif kind == "bound":
-                # every Graph object obtained through the wrapper must write through the wrapper
-                a = [g_ for g_ in st.contexts() if isinstance(g_, Graph)]
-                b = [g_ for _t, cg_ in st.triples((None, None, None), None) for g_ in cg_ if isinstance(g_, Graph)]
-                via_top = []
-                if cfg == "cg" and not (nest and w == 1):
-                    via_top = [g_ for _s, _p, _o, g_ in top.quads((None, None, None))] + list(top.contexts())
-                    for q_ in B[:3]:
-                        via_top += list(top.contexts((TERM[q_[0]], TERM[q_[1]], TERM[q_[2]])))
-                loose = [g_ for g_ in a + b + via_top if g_.store is not st]
-                if loose:
-                    viol.append(f"bound: op {k}: a Graph object handed out through the wrapper (contexts / triples / quads) is bound to "
-                                f"another store ({type(loose[0].store).__name__}): writes through it would bypass the undo log")
-                obs.append(f"{int(all(g_.store is st for g_ in a))} {int(all(g_.store is st for g_ in b))}")
+                # every Graph object obtained through the wrapper must write through the wrapper; one bit per Source of
+                # XModel.lean: storeContexts storeTriples cgContexts cgContextsOf cgQuads getContext resource collection nsManager
+                src = {n_: [] for n_ in ("storeContexts", "storeTriples", "cgContexts", "cgContextsOf", "cgQuads", "getContext",
+                                         "resource", "collection", "nsManager")}
+                src["storeContexts"] = [g_ for g_ in st.contexts() if isinstance(g_, Graph)]
+                src["storeTriples"] = [g_ for _t, cg_ in st.triples((None, None, None), None) for g_ in cg_ if isinstance(g_, Graph)]
+                if not (nest and w == 1):
+                    names = sorted({q_[3] for q_ in B}) or [DEFAULT_G]
+                    if cfg == "cg":
+                        src["cgContexts"] = list(top.contexts())
+                        for q_ in B[:3]:
+                            src["cgContextsOf"] += list(top.contexts((TERM[q_[0]], TERM[q_[1]], TERM[q_[2]])))
+                        src["cgQuads"] = [g_ for _s, _p, _o, g_ in top.quads((None, None, None))]
+                        src["getContext"] = [top, top.default_context] + [top.get_context(gn[c_]) for c_ in names]
+                        for c_ in names:
+                            try:
+                                src["getContext"].append(top.get_graph(gn[c_]))
+                            except IndexError:
+                                pass
+                        views = [top] + [top.get_context(gn[c_]) for c_ in names]
+                    else:
+                        src["getContext"] = [top]
+                        views = [top]
+                    for v_ in views:
+                        src["resource"].append(v_.resource(TERM[1]).graph)
+                        src["collection"].append(Collection(v_, BNode()).graph)
+                        src["nsManager"].append(v_.namespace_manager.graph)
+                bits = []
+                for n_, gs_ in src.items():
+                    loose = [g_ for g_ in gs_ if g_.store is not st]
+                    bits.append(str(int(not loose)))
+                    if loose:
+                        viol.append(f"bound: op {k}: a Graph object handed out by {n_} is bound to another store "
+                                    f"({type(loose[0].store).__name__}), not to the wrapper: writes through it bypass the undo log")
+                obs.append(" ".join(bits))
             else:
                 ns, pf, listed = _bindings(st)
                 if sorted(ns) != listed:
@@ -418,6 +462,7 @@ def run_impl(case):
                 viol.append(f"read: op {k} ({kind}) changed the store")
             continue
         route = op[6] if kind in ("add", "remove") and len(op) > 6 else None
+        _TRACE = []
         if kind == "bind":
             taken = st.namespace(PFX[op[2]]) is not None or st.prefix(NSP[op[3]]) is not None
             st.bind(PFX[op[2]], NSP[op[3]], override=bool(op[4]))
@@ -545,6 +590,14 @@ def run_impl(case):
             (st if (nest and w == 1) else top).commit()
         elif kind == "rollback":
             (st if (nest and w == 1) else top).rollback()
+        made, _TRACE = _TRACE, None
+        # graphs created while the operation ran: one bound BELOW the wrapper the caller talks to, created anywhere but inside
+        # AuditableStore itself (its own re-bound views are never handed out: `bound` reads), is a way round the undo log
+        below = [mem] + ([sts[1]] if nest and w == 0 else [])
+        for g_, file_, fn_ in made:
+            created["graphs_created_by_" + file_.replace(".py", "") + "." + fn_] = created.get("graphs_created_by_" + file_.replace(".py", "") + "." + fn_, 0) + 1
+            if any(g_.store is b_ for b_ in below) and file_ != "auditable.py":
+                viol.append(f"leak: op {k} ({kind}): {file_}:{fn_} created a {type(g_).__name__} bound to the store UNDER the wrapper")
         after, raw_n = _quads(mem, gn_rev, term_rev)
         if raw_n != len(after):
             viol.append(f"dup: store yields duplicate quads after op {k}")
@@ -604,7 +657,7 @@ def run_impl(case):
     kinds = [o[0] for o in case["ops"]]
     return {"obs": obs, "viol": viol, "nontrivial": nontrivial,
             "key": repr((case["cfg"], case["two"], case["init"], case["ops"])),
-            "stats": {"ops": len(case["ops"]), "cfg_" + case["cfg"]: 1, "two_wrappers": int(case["two"]),
+            "stats": {**created, "ops": len(case["ops"]), "cfg_" + case["cfg"]: 1, "two_wrappers": int(case["two"]),
                       **{"op_" + o[0]: 1 for o in case["ops"]},
                       **{"route_" + o[6]: 1 for o in case["ops"] if o[0] in ("add", "remove") and len(o) > 6},
                       **{"pass_" + o[2]: 1 for o in case["ops"] if o[0] == "pass"},
